@@ -27,7 +27,7 @@ def check(ctx):
                       "adaptive and step > window; one history value max|abs_sq_psi - old_sq_psi| per update", 3)
     ctx.rule("R12.2", "with adaptive off the tentative step is never reassigned and dt_max == dt_init", 2)
     ctx.rule("R12.3", "retry loop: one multiplication by the configured factor between consecutive solves; exits are "
-                      "{break on success, raise on (not adaptive or retries > max_solve_retries)}", 5)
+                      "{break on success, raise on (not adaptive or retries > max_solve_retries)} - followed over 48 scenarios (bound, adaptive, refusals)", 3)
     ctx.rule("R12.4", "the dt recorded, returned and added to the clock is the dt of the last accepted solve; "
                       "dt <- tentative_dt only in screening iteration 0", 4)
     ctx.rule("R12.5", "sign domain: the proposal is the clip of a mean of two positive terms", 1)
@@ -62,9 +62,21 @@ def check(ctx):
              label="solver")
     decided = []
 
+    # undecidable tests inside the block (the warm-up guard, whichever way it is spelled: `if step > window: <rule>` or
+    # `if step <= window: return`): follow the branch that holds the store to tentative_dt and record the condition that holds there
+    from ..dataflow import holds_text
+    ifs = {id(n.test): n for n in ast.walk(fn) if isinstance(n, ast.If)}
+
+    def _stores(stmts):
+        return any(isinstance(x, ast.Attribute) and x.attr == "tentative_dt" and isinstance(x.ctx, ast.Store) for s_ in stmts for x in ast.walk(s_))
+
     def policy(test, fr):
-        decided.append(expanded_text(fn, test))
-        return True
+        node = ifs.get(id(test))
+        br = True
+        if node is not None and not _stores(node.body) and _stores(node.orelse):
+            br = False
+        decided.append(holds_text(fn, test, br))
+        return br
     ip.branch_policy = policy
     # locals of update() by role, not by name
     env = {"self": me}
@@ -156,80 +168,91 @@ def check(ctx):
 
 
 def retry_loop(ctx):
+    """The retry protocol of adaptive_euler_step, followed statement by statement (pvs/smallstep.py) for every small scenario:
+    bound M, adaptive on/off, number of refused solves f.  The loop may be spelled any way."""
+    from ..smallstep import Machine, Mono, MULT, Opaque
     repo = ctx.repo
     f = repo.func(SOLVER, "TDGLSolver.adaptive_euler_step")
     fn = f.node
-    pm = parent_map(fn)
-    loops = [n for n in own_nodes(fn) if isinstance(n, ast.For) and "count" in norm(n.iter)]
-    if len(loops) != 1:
-        raise AnalysisError("adaptive_euler_step no longer has one itertools.count() retry loop")
-    lp = loops[0]
-    solves = [n for n in own_nodes(fn) if isinstance(n, ast.Assign) and isinstance(n.value, ast.Call)
-              and norm(n.value.func).endswith("solve_for_psi_squared")]
-    inside = [s for s in solves if any(x is s for x in ast.walk(lp))]
-    outside = [s for s in solves if s not in inside]
-    ok = len(inside) == 1 and len(outside) == 1 and norm(inside[0].value) == norm(outside[0].value) \
-        and norm(inside[0].targets[0]) == norm(outside[0].targets[0])
-    ctx.ob("R12.3", "one solve before the loop and one per retry, same call, same result variable", ok,
-           detail=[norm(s) for s in solves], where=f.fq, construct="solve_for_psi_squared calls", loc=loc(f, lp),
-           message=f"solve calls: {[norm(s) for s in solves]}", consequence="a retry re-solves with different arguments")
-    res = norm(outside[0].targets[0]) if outside else "result"
-    exits = [n for n in ast.walk(lp) if isinstance(n, (ast.Break, ast.Return, ast.Raise, ast.Continue))]
-    kinds = {"success": 0, "giveup": 0}
-    bad = []
-    ctr = lp.target.id if isinstance(lp.target, ast.Name) else "?"
-    from ..dataflow import expanded_text
-    for e in exits:
-        gs = [(g, br) for g, br in guards_of(fn, e, pm) if isinstance(g, ast.If) and any(x is g for x in ast.walk(lp))]
-        t = [("" if br == "true" else "not ") + rename_id(rename_id(expanded_text(fn, g.test, stop=(res, ctr)), ctr, "N"), res, "R") for g, br in gs]
-        if isinstance(e, ast.Break) and t == ["R is not None"]:
-            kinds["success"] += 1
-        elif isinstance(e, ast.Raise) and len(t) == 1 and t[0] in (
-                # canonical spelling: `N > max` reads `max < N`
-                "not self.options.adaptive or self.options.max_solve_retries < N",
-                "self.options.max_solve_retries < N or not self.options.adaptive",
-                "not self.options.adaptive or self.options.max_solve_retries <= N"):
-            kinds["giveup"] += 1
-        else:
-            bad.append(f"L{e.lineno} {type(e).__name__} under {t}")
-    ctx.ob("R12.3", "loop exits: break iff the solve succeeded; raise iff not adaptive or the retry counter exceeds the bound",
-           not bad and kinds == {"success": 1, "giveup": 1}, detail={"kinds": kinds, "other": bad, "counter": ctr},
-           where=f.fq, construct="retry loop exits", loc=loc(f, lp),
-           message=f"retry loop exits: {kinds}, unexpected {bad}",
-           consequence="exhausting the retries continues with an unsolved step, or a solvable step raises")
-    # the multiplication
-    kwdefs = [n for n in own_nodes(fn) if isinstance(n, ast.Assign) and isinstance(n.value, ast.Call) and norm(n.value.func) == "dict"
-              and any(k.arg == "dt" for k in n.value.keywords)]
-    kwname = norm(kwdefs[0].targets[0]) if len(kwdefs) == 1 else "kwargs"
-    mults = [n for n in ast.walk(lp) if isinstance(n, ast.Assign) and isinstance(n.value, ast.BinOp)
-             and isinstance(n.value.op, ast.Mult) and "adaptive_time_step_multiplier" in norm(n.value)]
-    ok = len(mults) == 1
-    det = {}
-    if ok:
-        m = mults[0]
-        tg = sorted(norm(t) for t in m.targets)
-        det = {"stmt": norm(m)}
-        val = expanded_text(fn, m.value, stop=("dt",))
-        ok = tg == sorted(["dt", f"{kwname}['dt']"]) and val in ("dt * self.options.adaptive_time_step_multiplier",
-                                                                  "self.options.adaptive_time_step_multiplier * dt")
-        order = [s for s in lp.body]
-        pos = {id(s): i for i, s in enumerate(order)}
-        ok = ok and id(m) in pos and id(inside[0]) in pos and pos[id(m)] < pos[id(inside[0])] and \
-            all(pos[id(m)] > i for i, s in enumerate(order) if isinstance(s, ast.If))
-    ctx.ob("R12.3", "between two solves: exactly one `kwargs['dt'] = dt = dt * multiplier`, after the give-up test", ok,
-           detail=det, where=f.fq, construct="retry multiplication", loc=loc(f, mults[0]) if mults else loc(f, lp),
-           message=f"retry step update is {[norm(m) for m in mults]}",
+    params = [a.arg for a in fn.args.args]
+    if "dt" not in params:
+        raise AnalysisError("adaptive_euler_step no longer takes the tentative step as parameter dt")
+    if not any(isinstance(c, ast.Call) and norm(c.func).endswith("solve_for_psi_squared") for c in own_nodes(fn)):
+        raise AnalysisError("adaptive_euler_step no longer calls solve_for_psi_squared")
+    runs = []
+    bad_args, bad_proto, bad_ret = [], [], []
+    bounds = {}
+    for M in (0, 1, 2, 3):
+        for adaptive in (True, False):
+            for fails in range(0, M + 4):
+                calls = []
+
+                def attrs(text, M=M, adaptive=adaptive):
+                    if text.endswith(".adaptive"):
+                        return adaptive
+                    if text.endswith(".max_solve_retries"):
+                        return M
+                    if text.endswith(".adaptive_time_step_multiplier"):
+                        return MULT
+                    return NotImplemented
+
+                def call(m, node, name, args, kwargs, fails=fails, calls=calls):
+                    if name.endswith("solve_for_psi_squared"):
+                        k = len(calls)
+                        calls.append((list(args), dict(kwargs)))
+                        if k < fails:
+                            return None
+                        return (Opaque(f"psi#{k}"), Opaque(f"sq#{k}"))
+                    return NotImplemented
+                env = {p: Opaque(p) for p in params}
+                env["dt"] = Mono("dt", 0)
+                kind, val = Machine(env, attrs, call, fuel=32).run_function(fn)
+                tag = f"M={M} adaptive={adaptive} refused={fails}"
+                runs.append(tag)
+                # every solve k is handed dt * multiplier**k and otherwise the same arguments
+                for k, (a, kw) in enumerate(calls):
+                    if a or kw.get("dt") != Mono("dt", k):
+                        bad_args.append(f"{tag}: solve #{k} gets dt={kw.get('dt')!r}" + (" and positional arguments" if a else ""))
+                    rest = {x: y for x, y in kw.items() if x != "dt"}
+                    rest0 = {x: y for x, y in calls[0][1].items() if x != "dt"}
+                    if rest != rest0:
+                        bad_args.append(f"{tag}: solve #{k} differs from the first in {sorted(x for x in set(rest) | set(rest0) if rest.get(x) != rest0.get(x))}")
+                if not calls:
+                    bad_proto.append(f"{tag}: no solve")
+                    continue
+                if kind == "return":
+                    k = len(calls) - 1
+                    if k != fails:
+                        bad_proto.append(f"{tag}: returns after {len(calls)} solves")
+                    want = (Opaque(f"psi#{k}"), Opaque(f"sq#{k}"), Mono("dt", k))
+                    if not (isinstance(val, tuple) and tuple(val) == want):
+                        bad_ret.append(f"{tag}: returns {val!r}, the accepted solve was #{k} with step dt*m^{k}")
+                else:
+                    if len(calls) > fails:
+                        bad_proto.append(f"{tag}: raises although solve #{fails} succeeded")
+                    elif not adaptive:
+                        if len(calls) != 1:
+                            bad_proto.append(f"{tag}: {len(calls) - 1} retries although the step is fixed")
+                    else:
+                        bounds.setdefault(M, set()).add(len(calls) - 1)       # retries made before giving up
+                if kind == "return" and not adaptive and fails > 0:
+                    bad_proto.append(f"{tag}: a fixed step is retried")
+    # the give-up bound: after R retries, R = M or M + 1 (the counter starts at 0 and is compared with >), the same rule for all M
+    offs = {tuple(sorted(r - M for r in rs)) for M, rs in bounds.items()}
+    if len(bounds) != 4 or len(offs) != 1 or next(iter(offs)) not in ((0,), (1,)):
+        bad_proto.append(f"retries made before giving up, per bound M: { {M: sorted(r) for M, r in sorted(bounds.items())} }")
+    ctx.note("retry_scenarios", len(runs))
+    ctx.ob("R12.3", "solve #k is handed dt * multiplier**k (exactly one multiplication between two solves) and otherwise the same arguments",
+           not bad_args, detail=bad_args[:6], where=f.fq, construct="retry multiplication", loc=loc(f, fn),
+           message=f"{bad_args[:2]}",
            consequence="a refused update is retried with the same step, or the step shrinks by the factor squared per retry")
-    ok = len(kwdefs) == 1 and any(k.arg == "dt" and norm(k.value) == "dt" for k in kwdefs[0].value.keywords) \
-        and all(norm(s.value).endswith(f"(**{kwname})") for s in solves)
-    ctx.ob("R12.3", "the dt passed to the solve is the dt that is multiplied and returned", ok,
-           detail=[norm(k)[:120] for k in kwdefs], where=f.fq, construct="kwargs['dt']", loc=loc(f, fn),
-           message="the step handed to solve_for_psi_squared is not the variable dt",
-           consequence="the solve uses another step than the one reported")
-    rets = [n for n in own_nodes(fn) if isinstance(n, ast.Return)]
-    ok = len(rets) == 1 and isinstance(rets[0].value, ast.Tuple) and norm(rets[0].value.elts[-1]) == "dt"
-    ctx.ob("R12.3", "the step returned is dt", ok, detail=[norm(r) for r in rets], where=f.fq, construct="return",
-           message=f"returns {[norm(r) for r in rets]}", consequence="the caller records a different step than the one used")
+    ctx.ob("R12.3", "loop exits: return with the first accepted solve; raise iff the step is fixed or the retry bound is exhausted",
+           not bad_proto, detail=bad_proto[:6], where=f.fq, construct="retry loop exits", loc=loc(f, fn),
+           message=f"{bad_proto[:2]}",
+           consequence="exhausting the retries continues with an unsolved step, or a solvable step raises")
+    ctx.ob("R12.3", "the step returned is the step of the accepted solve, with its psi and |psi|^2", not bad_ret, detail=bad_ret[:6],
+           where=f.fq, construct="return", loc=loc(f, fn), message=f"{bad_ret[:2]}",
+           consequence="the caller records a different step than the one used")
 
 
 def step_reported(ctx, fu):
